@@ -195,8 +195,8 @@ class ClientHarness:
             return "error:ConnectionError:closedBeforeHeader"
         if isinstance(e, UnicodeDecodeError):
             return "error:UnicodeDecodeError"
-        if isinstance(e, LookupError):
-            return "error:LookupError"
+        if isinstance(e, LookupError) or type(e) is UnicodeError or (type(e) is ValueError and "null" in msg):
+            return "error:LookupError"          # the charset label itself is unusable
         if isinstance(e, ValueError) and "Invalid status code" in msg:
             return "error:ValueError:status"
         if isinstance(e, ValueError) and "out of range" in msg:
